@@ -9,7 +9,7 @@ from vf.engine.runner import Result
 
 ID = "C06"
 BOUNDS = {
-    "quick": "9 incremental + 2 plain requests x site sets x early execution off/on x stop kind {consumer aclose, abort(None), abort(exception), abort(non-exception value)} inserted at EVERY choice point of EVERY completion order (complete), plus the same runs without a stop and with resolver / source failures; 4 subscription scenarios x stop at every point",
+    "quick": "9 incremental + 2 plain requests x site sets x early execution off/on x stop kind {consumer aclose, abort(None), abort(exception), abort(non-exception value)} inserted at EVERY choice point of EVERY completion order (complete), plus the same runs without a stop and with resolver / source failures; 4 subscription scenarios x stop at every point; component level: consumer close at every choice point of every synthetic work graph (<=2 groups with <=2 tasks, or 1 group + 1 task + 1 stream over 15 scripts) on the real WorkQueue/publisher/StreamItemQueue(capacity 1|2)",
     "thorough": "all 20 C04 requests; early release <=1 before the stop",
 }
 RULE = (
@@ -48,6 +48,13 @@ def shards(tier):
     for i in range(len(SUB_SCENARIOS)):
         for st in ("none", "aclose", "abort"):
             out.append(("sub", (i, st)))
+    # component level: the consumer closes the stream at every choice point of every synthetic work graph
+    from vf.checks import c05
+
+    for parents in ((0,), (0, 0), (0, 1)):
+        out.append(("graph", (parents, 0, 2, None)))
+    for si in range(len(c05.STREAM_SCRIPTS)):
+        out.append(("graph", ((0,), 1, 1, si)))
     return out
 
 
@@ -356,9 +363,43 @@ def judge_sub(obs, idx, stop, res, c):
     res.sample({"subscription": SUB_SCENARIOS[idx][1], "source": obs["kind"], "stop": stop, "schedule": obs["trace"], "observed": obs["out"]}, 1)
 
 
+def judge_graph(obs, parents, ns, T, res, c, si=None):
+    if obs is None:
+        return
+    label = f"work graph {obs['desc']} schedule {obs['trace']}"
+    payload = {"mode": "graph", "parents": list(parents), "ns": ns, "T": T, "si": si, "choices": list(c.choices)}
+    res.evaluations += 1
+    pre = "graph_" + ("aclose" if obs["stopped"] else "none")
+    if obs["status"] != "done":
+        res.violation(f"{pre}:consumer_{obs['status'].split(':')[0]}", f"{label}: {obs['status']}", payload)
+        return
+    if obs["left"]:
+        res.violation(f"{pre}:task_left_pending", f"{label}: {obs['left']}", payload)
+        return
+    if obs["hook"] != 1 or obs["cancelled"] != 1:
+        res.violation(f"{pre}:cleanup_count", f"{label}: work-finished hook ran {obs['hook']}x, cancel_incremental_work {obs['cancelled']}x", payload)
+        return
+    res.outcome((repr(obs["desc"]), tuple(obs["trace"])))
+    res.sample({"work_graph": obs["desc"], "schedule": obs["trace"]}, 1)
+
+
 def run_shard(shard, tier):
     res = Result()
     kind, arg = shard
+    if kind == "graph":
+        from vf.checks import c05
+
+        parents, ns, T, si = arg
+        scripts = [c05.STREAM_SCRIPTS[si]] if si is not None else None
+
+        def visit(c, obs):
+            judge_graph(obs, parents, ns, T, res, c, si)
+
+        st = explore(lambda c: c05.scenario_graph(c, parents, ns, T, stop=True, scripts=scripts), 0, visit, max_executions=300000)
+        res.add_stats(st)
+        if st.pruned:
+            res.notes.append(f"cap hit for work graphs {parents} streams {ns}")
+        return res
     if kind == "incr":
         run_incr(arg, tier, res)
     else:
@@ -373,6 +414,15 @@ def run_shard(shard, tier):
 
 def replay(payload):
     res = Result()
+    if payload["mode"] == "graph":
+        from vf.checks import c05
+
+        parents = tuple(payload["parents"])
+        si = payload.get("si")
+        scripts = [c05.STREAM_SCRIPTS[si]] if si is not None else None
+        c, obs = run_once(lambda c: c05.scenario_graph(c, parents, payload["ns"], payload["T"], stop=True, scripts=scripts), payload["choices"])
+        judge_graph(obs, parents, payload["ns"], payload["T"], res, c, si)
+        return [{"signature": v["signature"], "summary": v["summary"]} for v in res.violations]
     if payload["mode"] == "incr":
         run_incr(tuple(payload["arg"]), "quick", res, only=(payload["fault"], payload["choices"]))
     else:
